@@ -462,11 +462,11 @@ caf_read_header (SF_PRIVATE *psf)
 				psf_binheader_readf (psf, "E4", &k) ;
 				if (chunk_size == -1)
 				{	psf_log_printf (psf, "%M : -1\n") ;
-					chunk_size = psf->filelength - psf->header.indx ;
+					chunk_size = psf->filelength - psf_ftell (psf) ;
 					}
-				else if (psf->filelength > 0 && chunk_size > psf->filelength - psf->header.indx + 10)
-				{	psf_log_printf (psf, "%M : %D (should be %D)\n", marker, chunk_size, psf->filelength - psf->header.indx - 8) ;
-					psf->datalength = psf->filelength - psf->header.indx - 8 ;
+				else if (psf->filelength > 0 && chunk_size > psf->filelength - psf_ftell (psf) + 10)
+				{	psf_log_printf (psf, "%M : %D (should be %D)\n", marker, chunk_size, psf->filelength - psf_ftell (psf) - 8) ;
+					psf->datalength = psf->filelength - psf_ftell (psf) - 8 ;
 					}
 				else if (chunk_size < 4)
 				{	psf_log_printf (psf, "%M : %D (should be >= 4)\n", marker, chunk_size) ;
@@ -480,7 +480,7 @@ caf_read_header (SF_PRIVATE *psf)
 
 				psf_log_printf (psf, "  edit : %u\n", k) ;
 
-				psf->dataoffset = psf->header.indx ;
+				psf->dataoffset = psf_ftell (psf) ;
 				if (psf->datalength + psf->dataoffset < psf->filelength)
 					psf->dataend = psf->datalength + psf->dataoffset ;
 
